@@ -286,3 +286,5 @@ from .gen_E2E2 import COMPONENT_E2E2  # noqa: E402  second end-to-end instance (
 COMPONENTS.append(COMPONENT_E2E2)
 from .gen_E2E3 import COMPONENT_E2E3  # noqa: E402  third end-to-end instance (design/E2E.md)
 COMPONENTS.append(COMPONENT_E2E3)
+from .gen_E2E5 import COMPONENT_E2E5  # noqa: E402  fifth end-to-end instance (design/E2E.md)
+COMPONENTS.append(COMPONENT_E2E5)
